@@ -76,8 +76,11 @@ def check_xver(case, il, ctx, ml=""):
             _kind(ctx, "xver:WrongVersion")
             continue
         if x != y:
-            probs.append(f"{who}: pinned reader {I.get('pp' if a == 'pp' else 'cp', '')[:140]!r} current reader "
-                         f"{I.get('pc' if a == 'pp' else 'cc', '')[:140]!r}")
+            pr, cr = I.get('pp' if a == 'pp' else 'cp', ''), I.get('pc' if a == 'pp' else 'cc', '')
+            k = next((j for j in range(min(len(pr), len(cr))) if pr[j] != cr[j]), min(len(pr), len(cr)))
+            k = max(1, (k - 60) | 1)   # a window around the first difference (odd offset: whole hex bytes after the 'x')
+            probs.append(f"{who}: pinned reader {pr[:1] + pr[k:k + 140]!r} current reader "
+                         f"{cr[:1] + cr[k:k + 140]!r} (answers shown from offset {k // 2})")
         if "PANIC" in (x or "") or "PANIC" in (y or "") or "ERR:" in (y or ""):
             probs.append(f"{who}: reader failed: {x[:80]} / {y[:80]}")
     if case.split(" ")[0] == "W" and "app" in I:
@@ -582,12 +585,16 @@ PROPS = {
              "by the current reader for every frame query and every line, the two writers' files differ only in the "
              "class rows, and outside the domain the releases do differ (witness). The harness links the vendored pinned "
              "release: files written by each release are answered by both readers, and every answer must be "
-             "WrongVersion or identical; the bytes each release writes are compared with the model of that release's "
+             "WrongVersion or identical (typed traces: identical once a throwable of an unmapped class, which the "
+             "pinned release drops — its defect F3, repaired in the current tree — is shown as the input's throwable "
+             "in both releases' answers); the bytes each release writes are compared with the model of that release's "
              "writer (PinnedModel.v: the complete pinned writer with F1, F2, F7; CacheWriter.v).",
              "representable grammar mappings and corpus files x {pinned 5.5.0, current tree} writers x both readers x "
              "class / method / line / params / text-trace / signature queries over the file's universe; non-trivial = "
-             "query answered with a non-empty result. Typed remapping is excluded: the pinned release has defect F3 "
-             "(fixed), which changes typed answers independently of the file bytes",
+             "query answered with a non-empty result. Typed traces (Y) are compared with one normalisation applied to "
+             "both releases' answers: a throwable whose class is not in the mapping, which the pinned release drops "
+             "(its defect F3, repaired in the current tree) is shown as the input's throwable; frames, mapped "
+             "throwables, order and chain depth are compared as they are",
              "guard, version and reader-equality clauses proved for the models of both releases; that the vendored pinned "
              "release behaves as its model is established by the cross-release run",
              modes=["run-xver"], model_lines=lambda l: l if l.startswith("M ") else ("WP" if l == "W" else "NOP"),
